@@ -43,7 +43,7 @@ func rwRun(t *testing.T, c rwCase, opt rwOptions) (res rwResult) {
 	}
 	gates := &c08Gates{armed: map[string]chan struct{}{}, parked: map[string]bool{}}
 	for _, o := range c.Ops {
-		if o.Window {
+		if o.Window || o.Gate {
 			hook := func(p string) { gates.hook(p) }
 			vfYieldHook.Store(&hook)
 			defer vfYieldHook.Store(nil)
@@ -87,6 +87,7 @@ func rwRun(t *testing.T, c rwCase, opt rwOptions) (res rwResult) {
 			rwApply(w, o)
 			after()
 		}
+		w.openGate()
 		w.closeWindow()
 		if opt.drain || opt.epilogue {
 			w.step++
@@ -161,9 +162,18 @@ func rwProgress(w *rwWorld) string {
 }
 
 func rwApply(w *rwWorld, o rwOp) {
+	if o.K == "break" || o.K == "connect" || o.K == "move" {
+		w.openGate() // stream failures and reconnections are explored with every receiver running
+	}
 	switch o.K {
 	case "emit":
+		if o.Gate && w.gates != nil && !w.gateArmed && len(w.nodes) == 0 {
+			w.gates.arm("receiver.handoff")
+			w.gateArmed = true
+		}
 		w.emit(o)
+	case "ungate":
+		w.openGate()
 	case "finish":
 		t := w.targets[o.I%len(w.targets)]
 		if t.tracker != nil {
@@ -562,6 +572,14 @@ func rwGenEmit(t *rapid.T, ns, nt int) rwOp {
 	o.HighGap = rapid.IntRange(0, 2).Draw(t, "hg")
 	o.IDGap = rapid.IntRange(0, 2).Draw(t, "ig")
 	o.Priority = rapid.IntRange(0, 1).Draw(t, "prio")
+	if k >= 2 && rapid.IntRange(0, 3).Draw(t, "gate") == 0 {
+		// the receiver is not scheduled for a while right after its first hand-off of this batch
+		for _, ts := range o.Tasks[1:] {
+			if ts.Target != o.Tasks[0].Target {
+				o.Gate = true
+			}
+		}
+	}
 	return o
 }
 
@@ -593,11 +611,22 @@ func rwGenCase(t *rapid.T, faults bool) rwCase {
 		silent = rapid.IntRange(0, c.NT-1).Draw(t, "silent")
 	}
 	n := rapid.IntRange(4, vfshared.Scale(50, 110)).Draw(t, "nops")
+	ungateAt := -1
 	for i := 0; i < n; i++ {
+		if i == ungateAt {
+			c.Ops = append(c.Ops, rwOp{K: "ungate"})
+			ungateAt = -1
+		}
 		x := rapid.IntRange(0, 99).Draw(t, "op")
 		switch {
 		case x < 38:
-			c.Ops = append(c.Ops, rwGenEmit(t, c.NS, c.NT))
+			e := rwGenEmit(t, c.NS, c.NT)
+			if e.Gate && ungateAt < 0 {
+				ungateAt = i + rapid.IntRange(2, 8).Draw(t, "gateLen")
+			} else {
+				e.Gate = false
+			}
+			c.Ops = append(c.Ops, e)
 		case x < 52:
 			c.Ops = append(c.Ops, rwOp{K: "finish", I: rapid.IntRange(0, c.NT-1).Draw(t, "ft"), N: rapid.IntRange(1, 5).Draw(t, "fn"), Skip: rapid.SampledFrom([]int{0, 0, 0, 1, 2}).Draw(t, "fs")})
 		case x < 72:
